@@ -35,7 +35,7 @@ var c10KeyNames = []struct {
 }{
 	{"rsasha1-1024", 1024}, {"rsasha1nsec3-1024", 1024}, {"rsasha256-1024", 1024}, {"rsasha512-1024", 1024},
 	{"ecdsap256", 0}, {"ecdsap256-d0", 0}, {"ecdsap256-x0", 0}, {"ecdsap384", 0}, {"ecdsap384-d0", 0}, {"ed25519", 0},
-	{"rsasha1-2048", 2048}, {"rsasha256-2048", 2048}, {"rsasha512-2048", 2048},
+	{"rsasha1-2048", 2048}, {"rsasha256-2048", 2048}, {"rsasha512-2048", 2048}, {"rsasha256-4096", 4096},
 }
 
 var (
@@ -208,10 +208,16 @@ func c10RefSign(priv crypto.PrivateKey, tmpl *dns.RRSIG, rrset []dns.RR, rd cano
 // \DDD) contain no letters that matter, so mapping ASCII letters is enough.
 func c10Spell(s string, mode int) string {
 	switch mode {
-	case 1:
-		return strings.ToLower(s)
-	case 2:
-		return strings.ToUpper(s)
+	case 1, 2: // ASCII letters only: a name may hold raw octets ≥ 0x80, which strings.ToLower/ToUpper would rewrite
+		b := []byte(s)
+		for i, c := range b {
+			if mode == 1 && c >= 'A' && c <= 'Z' {
+				b[i] = c | 0x20
+			} else if mode == 2 && c >= 'a' && c <= 'z' {
+				b[i] = c &^ 0x20
+			}
+		}
+		return string(b)
 	case 3:
 		b := []byte(s)
 		up := true
